@@ -223,7 +223,7 @@ def r18_3(ctx: Ctx):
         raise AnalysisError("run_sprout no longer passes a named seeds mapping to _do_sprout")
     sdefs = defs.get(seeds_name, [])
     ok_src = len(sdefs) == 1 and isinstance(sdefs[0], ast.Call) and isinstance(sdefs[0].func, ast.Attribute) and sdefs[0].func.attr == "get_seeds" and [norm(a) for a in sdefs[0].args] == [selfn]
-    obs.append(ctx.ob("R18.3", f, sdefs[0] if sdefs else f.node, status=OK if ok_src else VIOLATION, detail=f"`{seeds_name}` = sprout_mechanism.get_seeds(tree), passed unchanged to _do_sprout" if ok_src else f"the seeds mapping `{seeds_name}` is not exactly what get_seeds(tree) returned", construct="seeds-provenance"))
+    obs.append(ctx.ob("R18.3", f, sdefs[0] if sdefs else f.node, status=OK if ok_src else VIOLATION if (len(sdefs) != 1 or isinstance(sdefs[0], (ast.Dict, ast.DictComp))) else INCONCLUSIVE, detail=f"`{seeds_name}` = sprout_mechanism.get_seeds(tree), passed unchanged to _do_sprout" if ok_src else f"the seeds mapping `{seeds_name}` is not exactly what get_seeds(tree) returned", construct="seeds-provenance"))
     stores = [(n, n.ast) for n in cfg.nodes if n.kind == "stmt" and any(isinstance(t, ast.Attribute) and t.attr == "_hibernating" for t in (n.ast.targets if isinstance(n.ast, ast.Assign) else []))]
     if not stores:
         obs.append(ctx.ob("R18.3", f, f.node, status=VIOLATION, detail="run_sprout never writes the hibernation flag: demes neither fall asleep nor wake up", construct="no-flag-store"))
@@ -441,6 +441,43 @@ def r18_6(ctx: Ctx):
     return obs
 
 
+def r18_7(ctx: Ctx):
+    """R18.7 being a key of the round's seeds means a sprout was taken: get_seeds returns only parents left with at least one candidate."""
+    from ..core import canon, cond_is
+
+    gs = ctx.prog.own_method("SproutMechanism", "get_seeds")
+    rets = [r for r in body_walk(gs.node) if isinstance(r, ast.Return)]
+    if len(rets) != 1 or rets[0].value is None:
+        return [ctx.ob("R18.7", gs, gs.node, status=INCONCLUSIVE, detail="get_seeds has no single value-returning exit", construct="drop-empty")]
+    defs = local_defs(gs)
+    e = rets[0].value
+    hops = 0
+    while isinstance(e, ast.Name) and hops < 3:
+        ds = defs.get(e.id, [])
+        dc = [d for d in ds if isinstance(d, ast.DictComp)]
+        if len(dc) == 1 and ds[-1] is dc[0]:
+            e = dc[0]
+            break
+        break
+    st, why = INCONCLUSIVE, f"cannot tell whether `{norm(rets[0].value)[:70]}` contains only parents with candidates"
+    if isinstance(e, ast.DictComp) and len(e.generators) == 1 and isinstance(e.generators[0].target, ast.Name):
+        g = e.generators[0]
+        k = g.target.id
+        src = canon(g.iter).removesuffix(".keys()")
+        lst = f"{src}[{k}].individuals"
+        nonempty = [c for c in g.ifs if any(cond_is(c, w) for w in (lst, f"len({lst}) > 0", f"len({lst}) != 0", f"{lst} != []", f"len({lst}) >= 1"))]
+        if nonempty and canon(e.value) == f"{src}[{k}]" and norm(e.key) == k:
+            st = OK
+        elif not g.ifs:
+            st, why = VIOLATION, "get_seeds returns parents whose candidates were all filtered out: such a deme counts as having sprouted and stays awake"
+    elif isinstance(e, ast.Name) or (isinstance(e, ast.Call) and norm(e.func) == "dict" and len(e.args) == 1 and isinstance(e.args[0], ast.Name)):
+        nm = e.id if isinstance(e, ast.Name) else e.args[0].id
+        last = defs.get(nm, [])
+        if last and isinstance(last[-1], ast.Call) and norm(last[-1].func).endswith(("apply_tree_filters", "apply_deme_filters", "candidates_generator")):
+            st, why = VIOLATION, "get_seeds returns the filtered mapping as it is: parents whose candidates were all filtered out remain keys, count as having sprouted and never hibernate"
+    return [ctx.ob("R18.7", gs, rets[0], status=st, detail="only parents with at least one remaining candidate are returned" if st == OK else why, construct="drop-empty")]
+
+
 RULES = [
     ("R18.1", r18_1, 1),
     ("R18.2", r18_2, 2),
@@ -448,4 +485,5 @@ RULES = [
     ("R18.4", r18_4, 1),
     ("R18.5", r18_5, 10),
     ("R18.6", r18_6, 2),
+    ("R18.7", r18_7, 1),
 ]
